@@ -70,6 +70,25 @@ def match_known(known, failure):
     return None
 
 
+def generic_replay(ctx, mod, path):
+    """Re-run the check on the current tree and say whether the recorded counterexample's class still occurs
+    (used by the properties whose cases are (re)generated as a whole by TLC + a child process)."""
+    with open(path) as f:
+        obj = json.load(f)
+    want = obj.get("sig") or obj.get("clause")
+    import contextlib
+    import io
+    buf = io.StringIO()
+    with contextlib.redirect_stdout(buf):
+        mod.run(ctx)
+    hits = [f for f in getattr(ctx, "last_failures", []) if (f.get("sig") or f.get("clause")) == want]
+    if hits:
+        print(f"VIOLATION property={ctx.prop} replay={path}   # still occurs: {want} ({len(hits)} case(s)); {hits[0].get('detail', '')[:200]}")
+        return 1
+    print(f"{ctx.prop}: the recorded case ({want}) does not occur on the current tree")
+    return 0
+
+
 def write_replay(prop, name, obj):
     p = os.path.join(REPLAY, f"{prop}_{name}.json")
     with open(p, "w") as f:
@@ -82,6 +101,7 @@ def finish(ctx, *, level, failures, evaluations, distinct_nontrivial, rule, samp
     """failures: list of dict(clause/sig, opset, detail, replay_obj).  Prints the interface lines,
     writes the evidence file and returns the exit code."""
     known = load_known(ctx.prop)
+    ctx.last_failures = failures
     new, kn = [], {}
     for f in failures:
         k = match_known(known, f)
@@ -102,7 +122,9 @@ def finish(ctx, *, level, failures, evaluations, distinct_nontrivial, rule, samp
         if key in shown:
             shown[key][1] += 1
             continue
-        path = write_replay(ctx.prop, f"{len(shown):03d}", f.get("replay_obj", f))
+        ro = dict(f.get("replay_obj", {}))
+        ro.update({"sig": f.get("sig"), "clause": f.get("clause"), "detail": f.get("detail")})
+        path = write_replay(ctx.prop, f"{len(shown):03d}", ro)
         shown[key] = [path, 1, f]
     for key, (path, n, f) in list(shown.items())[:25]:
         print(f"VIOLATION property={ctx.prop} replay={path}   # {f.get('sig') or f.get('clause')}: {f.get('detail', '')[:160]} ({n} case(s))")
